@@ -454,6 +454,19 @@ def tree_st(draw, p, q, depth, batch, dtype):
         if kind == "herm_dense":
             leaf["flag"] = draw(st.sampled_from([None, True]))
         return leaf
+    if p == q and draw(st.integers(0, 4)) == 0:
+        # compositions of Hermitian-flagged operands: the result's own Hermitian flag (which short-cuts rmv/rmm/.H) must only be
+        # set when the composition really is Hermitian (a product of non-commuting Hermitian factors is not)
+        def hleaf():
+            kind = draw(st.sampled_from(["herm_user", "herm_user", "herm_dense"]))
+            leaf = {"op": "leaf", "kind": kind, "p": p, "q": p, "batch": _sub_batch(draw, batch)}
+            if kind == "herm_dense":
+                leaf["flag"] = True
+            return leaf
+        op = draw(st.sampled_from(["matmul", "matmul", "add", "sub", "mul"]))
+        if op == "mul":
+            return {"op": "mul", "f": draw(st.sampled_from([2, -1, 0.5, -3.25])), "side": draw(st.sampled_from(["l", "r"])), "a": hleaf()}
+        return {"op": op, "a": hleaf(), "b": hleaf()}
     op = draw(st.sampled_from(["H", "matmul", "add", "sub", "mul"]))
     if op == "H":
         return {"op": "H", "a": draw(tree_st(q, p, depth - 1, batch, dtype))}
